@@ -1066,12 +1066,51 @@ func (ff *FuncFacts) phiImplies(x *ssa.Phi, want factKind, seen map[*ssa.Phi]boo
 
 // freshNonNil: the value is a newly made error (fmt.Errorf / errors.New).
 func freshNonNil(v ssa.Value) bool {
+	if ld, ok := v.(*ssa.UnOp); ok && ld.Op == token.MUL {
+		if g, ok := ld.X.(*ssa.Global); ok {
+			return sentinelNonNil(g)
+		}
+	}
 	c, ok := v.(*ssa.Call)
 	if !ok {
 		return false
 	}
 	n := staticName(c)
 	return n == "fmt.Errorf" || n == "errors.New"
+}
+
+var sentinelCache = map[*ssa.Global]bool{}
+
+// sentinelNonNil: a package-level error variable that is given a freshly made error by its
+// package's initialiser and is never assigned anywhere else (ErrNotFound, ErrObjectRequired, …)
+// is non-nil wherever it is read.
+func sentinelNonNil(g *ssa.Global) bool {
+	if v, ok := sentinelCache[g]; ok {
+		return v
+	}
+	sentinelCache[g] = false
+	if g.Pkg == nil || globalsAssigned == nil || globalsAssigned[g] {
+		return false
+	}
+	init := g.Pkg.Func("init")
+	if init == nil {
+		return false
+	}
+	n, fresh := 0, 0
+	for _, b := range init.Blocks {
+		for _, ins := range b.Instrs {
+			if st, ok := ins.(*ssa.Store); ok && st.Addr == ssa.Value(g) {
+				n++
+				if c, ok := st.Val.(*ssa.Call); ok {
+					if nm := staticName(c); nm == "fmt.Errorf" || nm == "errors.New" {
+						fresh++
+					}
+				}
+			}
+		}
+	}
+	sentinelCache[g] = n == 1 && fresh == 1
+	return sentinelCache[g]
 }
 
 // resolveAt: the value v denotes at instruction ins, looking through merges
